@@ -1,4 +1,6 @@
 from ..framework import Spec
-from ..ties_cond import resolve_tie
+from ..ties_cond import resolve_tie, file_tie
 
-SPEC = Spec(pid='C09', coq_needs=['Base', 'Subst', 'Properties/C09'], ties=[resolve_tie()])
+# definition order (a line is substituted against exactly the symbols defined before it) is observed at file level
+SPEC = Spec(pid='C09', coq_needs=['Base', 'Subst', 'SubstProofs', 'Cond', 'CondEval', 'Properties/C09'],
+            ties=[resolve_tie(), file_tie()])
